@@ -40,6 +40,9 @@ pub struct SvgElement {
     pub evaluated: bool,
     /// ... and the `id`, which is evaluated ahead of the others
     pub id_evaluated: bool,
+    /// This element with an end tag has been generated, and has no element in it
+    /// (whatever its source holds: an `<if>` which is not taken, say)
+    pub rendered_empty: bool,
 }
 
 impl Display for SvgElement {
@@ -220,6 +223,7 @@ impl SvgElement {
             content_bbox: None,
             evaluated: false,
             id_evaluated: false,
+            rendered_empty: false,
         }
     }
 
@@ -993,11 +997,12 @@ impl SvgElement {
 
     /// Does this element have child elements?
     pub fn has_child_elements(&self, ctx: &TransformerContext) -> bool {
-        self.inner_events(ctx).is_some_and(|events| {
-            events
-                .iter()
-                .any(|ev| ev.start_name_and_xmlns().is_some())
-        })
+        !self.rendered_empty
+            && self.inner_events(ctx).is_some_and(|events| {
+                events
+                    .iter()
+                    .any(|ev| ev.start_name_and_xmlns().is_some())
+            })
     }
 
     /// Apply any `transform` attr transformations to a bbox in this element's user space
